@@ -113,7 +113,7 @@ def gen(ch, tier):
         elif k in ("merge", "plus"):
             ops.append([k, ci, cj])
         elif k == "mutate_add":
-            ops.append(["mutate_add", ci, ch.randint(0, 2), [world.r3(ch.uniform(0, 20)), world.r3(ch.uniform(0.5, 4))],
+            ops.append(["mutate_add", ci, ch.randint(0, 5), [world.r3(ch.uniform(0, 20)), world.r3(ch.uniform(0.5, 4))],
                         ch.choice(NEW_LABELS)])
         elif k == "mutate_remove":
             ops.append(["mutate_remove", ci, ch.randint(0, 10)])
